@@ -44,16 +44,16 @@ type mchild struct {
 }
 
 type mcluster struct {
-	tw     *trace.Writer
-	enc    *symhash.Encoder
-	rng    *rand.Rand
-	kids   []*mchild
-	refMu  sync.Mutex
-	ref    *balloon.Balloon
-	refSt  *bplus.BPlusTreeStore
-	refSn  []*balloon.Snapshot
-	log    [][]byte
-	q      int
+	tw    *trace.Writer
+	enc   *symhash.Encoder
+	rng   *rand.Rand
+	kids  []*mchild
+	refMu sync.Mutex
+	ref   *balloon.Balloon
+	refSt *bplus.BPlusTreeStore
+	refSn []*balloon.Snapshot
+	log   [][]byte
+	q     int
 }
 
 // refFeed keeps an in-process, never-crashed balloon in step with the committed log, which is
